@@ -210,6 +210,27 @@ def serial_noeffect(acc):
                         ('alt-loc', _c08(dict(kind='alt', layout=[('A', 'ASP'), ('B', 'ASPs')], lys=[('B', 'LYSs'), ('C', 'LYS')]))),
                         ('models', _c08(dict(kind='model', layout=[(1, 'ASP'), (2, 'ASPnoCG'), (3, 'absent')])))):
         serial_noeffect_on(acc, which, base)
+    # hetero groups (ion, ligand) present in several models / with alternate locations: numbering that runs on through the
+    # models, restarts in each, or is the same for all atoms
+    for which, (ka, kb, dist) in (('models-with-ion', ('CA', 'GLU', 2.6)), ('models-with-ligand', ('ACT', 'LYS', 2.8))):
+        one = gen.pair(ka, kb, dist, level='exposed')
+        two = one.copy()
+        for a in two.atoms:
+            if a.rec == 'HETATM':
+                a.x, a.y, a.z = a.x + 300, a.y - 200, a.z + 100
+        base = gen.S(['MODEL        1\n'] + one.items + ['ENDMDL\n', 'MODEL        2\n'] + two.items + ['ENDMDL\n']).renumber_serials()
+        serial_noeffect_on(acc, which, base, per_model=len(one.atoms))
+        alt = []
+        for it in one.items:
+            if not isinstance(it, str) and it.rec == 'HETATM':
+                b = it.clone()
+                b.x, b.y, b.z = b.x + 300, b.y - 200, b.z + 100
+                it = it.clone()
+                it.alt, b.alt = 'A', 'B'
+                alt += [it, b]
+            else:
+                alt.append(it)
+        serial_noeffect_on(acc, which.replace('models', 'alt-loc'), gen.S(alt).renumber_serials())
 
 
 MALFORMED_SERIALS = ('*****', ' ****', '**   ', '  *  ', '12*45', 'Ab123', 'aB123', '     ', '+1234', '1 234', 'A_000', '0x1F ', '1e3  ', '#####', '-----', 'A-123')
@@ -298,7 +319,7 @@ def _c08(d):
     return c08.build(d, 0)
 
 
-def serial_noeffect_on(acc, which, base):
+def serial_noeffect_on(acc, which, base, per_model=None):
     text0 = gen.to_text(base)
     ref = pk.record(pk.run(text0))
     n = len(base.atoms)
@@ -311,6 +332,9 @@ def serial_noeffect_on(acc, which, base):
         'interleaved': lambda i: '%5d' % ((i * 7919) % 9973),
         'step-2': lambda i: '%5d' % (2 * i + 1), 'step-3': lambda i: '%5d' % (3 * i + 1), 'step-10': lambda i: '%5d' % (10 * i),
     }
+    if per_model:
+        variants['restart-in-each-model'] = lambda i: '%5d' % (i % per_model + 1)
+        variants['second-model-shifted-by-one'] = lambda i: '%5d' % (i % per_model + 1 + i // per_model)
     # one (two, five) numbers left out at every residue boundary, as after deleted TER records or removed atoms
     bounds_, last = [], None
     for i, a in enumerate(base.atoms):
